@@ -320,6 +320,12 @@ class ExprEval:
         terms = [n.left] + n.comparators
         parts = []
         for op, l, r in zip(n.ops, terms, terms[1:]):
+            if isinstance(op, (ast.Is, ast.IsNot)):
+                if isinstance(l, ast.Name) and isinstance(r, ast.Constant) and r.value is None and (l.id + "__isnone") in self.env:
+                    t = self.env[l.id + "__isnone"]
+                    parts.append(t if isinstance(op, ast.Is) else z3.Not(t))
+                    continue
+                raise Unsupported("`is` other than `<optional argument> is [not] None`")
             if isinstance(op, (ast.In, ast.NotIn)):
                 key, cont = self.ev(l), self.ev(r)
                 if isinstance(cont, IntSet):
@@ -720,6 +726,12 @@ class Engine:
         env = dict(self.module_consts)
         path = []
         for arg, decl in self.contract["args"].items():
+            if decl[0] == "opt":
+                # optional argument (None or a value of the inner kind): a boolean flag `<arg> is None` plus an unconstrained inner value; only
+                # `<arg> is None` / `<arg> is not None` may look at the flag (the code must not use the value on paths where the flag is set - not checked)
+                env[arg] = self.declare(arg, decl[1], path)
+                env[arg + "__isnone"] = z3.Bool(arg + "_isnone")
+                continue
             env[arg] = self.declare(arg, decl, path)
             if decl[0] == "arr2":
                 for dim, sname in zip(env[arg].shape, decl[1]):
